@@ -43,7 +43,9 @@ Print Assumptions C18_interleavings_complete.
 Theorem C18_footprints_sound :
   forall v c s, In s (op_steps v c) ->
     (forall g l, other (fst (run s g l)) = other g /\
-                 (~ In CellPrec (writes s) -> prec (fst (run s g l)) = prec g)) /\
+                 (~ In CellPrec (writes s) -> prec (fst (run s g l)) = prec g) /\
+                 (~ In CellFlags (writes s) ->
+                  inexact (fst (run s g l)) = inexact g /\ rounded (fst (run s g l)) = rounded g)) /\
     (~ In CellPrec (reads s) -> forall g l p, snd (run s (set_prec g p) l) = snd (run s g l)).
 Proof.
   intros v c s H. split; [exact (footprint_writes_sound v c s H)|exact (footprint_reads_sound v c s H)].
@@ -59,11 +61,12 @@ Proof. exact op_refines. Qed.
 Print Assumptions C18_op_refines.
 
 (** ... and in the CURRENT code every operation except a decimal read has an empty shared
-    write set; a decimal read is [tables; write prec; read prec; read prec] *)
+    write set; a decimal read is
+      [tables; write prec; read prec (create_decimal, raises flags); read prec (scaleb, raises flags)] *)
 Theorem C18_footprints :
   (forall c, effects c = [] -> Forall (fun s => writes s = []) (op_steps Current c)) /\
   (forall d, footprint (op_steps Current (CRead [d])) =
-             [([], [CellOther]); ([CellPrec], []); ([], [CellPrec]); ([], [CellPrec])]).
+             [([], [CellOther]); ([CellPrec], []); ([CellFlags], [CellPrec]); ([CellFlags], [CellPrec])]).
 Proof. split; [exact footprints_current|exact footprint_decimal_read_current]. Qed.
 Print Assumptions C18_footprints.
 
